@@ -319,6 +319,62 @@ def getters(prog, rep, roles):
     return n
 
 
+def raw_ctor_callers(prog, rep, allinv):
+    """who-may-call rule for the unchecked constructors: every in-repository caller must pass canonical variants"""
+    from .. import callgraph
+    cg = callgraph.CallGraph(prog)
+    targets = [t for t in EXEMPT_CTORS if t in prog.bodies and 'LanguageIdentifier' in t]
+    n = 0
+    for f, b in sorted(prog.bodies.items()):
+        if f in EXEMPT_CTORS or not (set(cg.edges.get(f, ())) & set(targets)):
+            continue
+        if b['sig'] and b['sig']['unsafe']:
+            continue
+        n += 1
+        e = pxm.PX(prog, opaque=set(targets))
+        bad = []
+        for s in e.explore(f):
+            for ev in s.state.events:
+                if ev[0] == 'call' and ev[1] in targets and len(ev[2]) >= 4:
+                    v = ev[2][3]
+                    if v[0] == 'adt' and v[2] == 'None':
+                        continue
+                    ap = terms.access_path(v)
+                    if ap is not None and not terms.find_terms(v, lambda t: t[0] in ('pure', 'mut', 'call')):
+                        continue       # an existing variants field / parameter of that type moved through
+                    r = ts.of_value(e, s.state, v, s.state.facts)
+                    if r.state > ts.SD or r.maybe_empty:
+                        bad.append('passes variants that are %s%s: %s' % (ts.NAMES[r.state], ' and possibly empty' if r.maybe_empty else '', e.short(v, 140)))
+        rep.ob('rawctor:%s' % validators.fn_key(f), 'TS-RAWCTOR', f, b['span'], '%s hands canonical variants (None, or sorted, duplicate-free, non-empty) to the unchecked constructor' % validators.short_fn(f),
+               not bad, detail='\n'.join(sorted(set(bad))[:3]))
+    return n
+
+
+def representation_obligations(rep, cfgs=('K0',)):
+    """typestate obligations shared with C04/C05/C12: invariants at every exit of every mutator and constructor"""
+    n_ctor = 0
+    for cfg in cfgs:
+        prog = common.program(cfg)
+        allinv = mu.invariant_fields(prog.facts)
+        for fn, ty in mu.mutator_methods(prog):
+            name = fn.split('::')[-1]
+            full, inv = allinv.get(ty, (None, []))
+            if not inv:
+                continue
+            e = pxm.PX(prog)
+            try:
+                segs = e.explore(fn)
+            except pxm.Limit as ex:
+                rep.ob('mut:%s::%s:explore' % (ty, name), 'TS-EXPLORE', fn, prog.bodies[fn]['span'], 'method explored', False, 'INCONCLUSIVE(%s)' % ex)
+                continue
+            mu.check_invariants_method(prog, e, segs, fn, ty, inv, rep, 'mut:%s::%s' % (ty, name))
+        if cfg == 'K0':
+            for fn, ty in mu.constructors(prog):
+                n_ctor += mu.check_constructor(prog, fn, ty, allinv, rep, EXEMPT_CTORS)
+            raw_ctor_callers(prog, rep, allinv)
+    return n_ctor
+
+
 def run(tier, replay=None):
     rep = common.new_report('C10', tier, 'other')
     roles = validators.load_roles()
@@ -356,6 +412,7 @@ def run(tier, replay=None):
         if cfg == 'K0':
             for fn, ty in mu.constructors(prog):
                 n_ctor += mu.check_constructor(prog, fn, ty, allinv, rep, EXEMPT_CTORS)
+            raw_ctor_callers(prog, rep, allinv)
             ng = getters(prog, rep, roles)
             rep.floor('validating getters', ng, 4)
     rep.floor('&mut self methods of the value types (K0)', total_methods, 16)
